@@ -166,6 +166,37 @@ package parser
 // node (an interior pointer) and is inlined at each of its six call sites, where
 // the operator table isOpOf is proved for the operators that level can capture.
 
+// The text of an operator token decides the operator (C14): one row per spelling of the
+// documented grammar. operatorMap is a constant table (a map literal written only by the
+// package initialiser and used only for this lookup; both checked over the SSA), so the
+// rows are proved from the literal itself. participle calls Capture with the matched
+// token, hence at least one string (assumed).
+//@ func (o *Operator) Capture(s []string) (err error)
+//@ serves C14 C19
+//@ requires o != nil
+//@ assumes len(s) > 0
+//@ modifies *o
+//@ ensures never_fails: err == nil
+//@ ensures spelling_add: s[0] == "+" ==> *o == OpAdd
+//@ ensures spelling_sub: s[0] == "-" ==> *o == OpSub
+//@ ensures spelling_mul: s[0] == "*" ==> *o == OpMul
+//@ ensures spelling_div: s[0] == "/" ==> *o == OpDiv
+//@ ensures spelling_and: s[0] == "&&" ==> *o == OpAnd
+//@ ensures spelling_or: s[0] == "||" ==> *o == OpOr
+//@ ensures spelling_le: s[0] == "<=" ==> *o == OpLessOrEqual
+//@ ensures spelling_ge: s[0] == ">=" ==> *o == OpGreaterOrEqual
+//@ ensures spelling_lt: s[0] == "<" ==> *o == OpLessThan
+//@ ensures spelling_gt: s[0] == ">" ==> *o == OpGreaterThan
+//@ ensures spelling_eq: s[0] == "==" ==> *o == OpEqual
+//@ ensures spelling_not: s[0] == "!" ==> *o == OpNegate
+//@ ensures spelling_contains: s[0] == "contains" ==> *o == OpContains
+//@ ensures spelling_starts_with: s[0] == "starts_with" ==> *o == OpPrefix
+//@ ensures spelling_ends_with: s[0] == "ends_with" ==> *o == OpSuffix
+//@ ensures spelling_matches: s[0] == "matches" ==> *o == OpMatches
+//@ ensures spelling_intersection: s[0] == "intersection" ==> *o == OpIntersection
+//@ ensures spelling_union: s[0] == "union" ==> *o == OpUnion
+//@ ensures spelling_length: s[0] == "length" ==> *o == OpLength
+
 //@ func checkExpression(expr biscuit.Expression) (err error)
 //@ serves C10 C14 C19
 //@ modifies nothing
